@@ -514,6 +514,45 @@ class Gen:
             L.append("subs|%d|%s|%s" % (q, ss, pp))
             L.append("subscribers|%d|%s|%s" % (q, oss, pp))
 
+        if rnd.random() < P.get("arity_hole", 0.3):
+            # registrations at several arities in one registry; then the LAST registration (or subscription) of a lower
+            # arity goes away: those of the higher arities stay where they are
+            r0 = rnd.randrange(nr)
+            ars = sorted(rnd.sample([0, 1, 2, 3], rnd.randint(2, 3)))
+            made = []
+            for a in ars:
+                req0 = [rnd.choice([None] + specs_all) for _ in range(a)]
+                p0 = rnd.choice(ifaces)
+                nm0 = rnd.choice(NAMES)
+                v = val()
+                sub = rnd.random() < 0.3
+                line = ("sub|%d|%s|%d|%d %d" % (r0, sreq(req0), p0, v[0], v[1])) if sub else \
+                    ("reg|%d|%s|%d|%s|%d %d" % (r0, sreq(req0), p0, nm0, v[0], v[1]))
+                L.append(line)
+                flat.apply(line.split("|"))
+                live.append((tuple(req0), p0))
+                made.append((req0, p0, nm0, sub))
+
+            def ask_made():
+                for req0, p0, nm0, sub in made:
+                    s0, pq = affected(req0, p0)
+                    emit_queries(rnd.choice(sorted(rdown(r0))), s0, pq, nm0, pq)
+                    if "book" in P["queries"]:
+                        L.append("registered|%d|%s|%d|%s" % (r0, sreq(req0), p0, nm0))
+                if "book" in P["queries"]:
+                    L.append("allreg|%d" % r0)
+                    L.append("allsub|%d" % r0)
+            ask_made()
+            for req0, p0, nm0, sub in rnd.sample(made[:-1], rnd.randint(1, len(made) - 1)):
+                if sub:
+                    line = "unsub|%d|%s|%d|N" % (r0, sreq(req0), p0)
+                elif rnd.random() < 0.5:
+                    line = "unreg|%d|%s|%d|%s|N" % (r0, sreq(req0), p0, nm0)
+                else:
+                    line = "reg|%d|%s|%d|%s|N" % (r0, sreq(req0), p0, nm0)
+                L.append(line)
+                flat.apply(line.split("|"))
+                ask_made()
         if P.get("families", True) and rnd.random() < 0.4:
             # one required key and name, several PROVIDED interfaces of one family registered in a random order (the
             # extendors list of every common ancestor must come out 'more general first' whatever the order), then
@@ -676,6 +715,29 @@ class Gen:
             L.append(line)
             flat.apply(line.split("|"))
             emit_queries(*hot)
+            if k == "rbases" and rnd.random() < 0.7:
+                # a registry BELOW the re-based one answers once (whatever it keeps about its ancestors is refreshed now),
+                # then a registry that the re-basing made reachable gets a registration / a subscription: it must be seen
+                below = sorted(rdown(r) - {r}) or [r]
+                q2 = rnd.choice(below)
+                newly = sorted(set().union(*[c03.reach(flat.regbases, b) for b in bs]) if bs else set())
+                if newly:
+                    t2 = rnd.choice(newly)
+                    ar2 = rnd.choice([0, 1, 1, 2])
+                    req2 = [rnd.choice([None] + specs_all) for _ in range(ar2)]
+                    p2 = rnd.choice(ifaces)
+                    nm2 = rnd.choice(NAMES)
+                    s2, pq2 = affected(req2, p2)
+                    emit_queries(q2, s2, pq2, nm2, pq2)
+                    v = val()
+                    if rnd.random() < 0.7:
+                        line2 = "reg|%d|%s|%d|%s|%d %d" % (t2, sreq(req2), p2, nm2, v[0], v[1])
+                    else:
+                        line2 = "sub|%d|%s|%d|%d %d" % (t2, sreq(req2), p2, v[0], v[1])
+                    L.append(line2)
+                    flat.apply(line2.split("|"))
+                    live.append((tuple(req2), p2))
+                    emit_queries(q2, s2, pq2, nm2, pq2)
             if k == "rbases" and "ro" in P["queries"]:
                 # every registry below the re-based one consults the new chain (each is reached by the cascade, some twice)
                 for j in sorted(rdown(r)):
